@@ -25,6 +25,9 @@ var histShapes = []histShape{
 	{"glob-task", "task A(\"*.g\") {\n\tcmdA\n}\n", "", "x.g,y.g", "A"},
 	{"chain", "task A(\"a.txt\") {\n\tcmdA\n}\ntask B(A, \"b.txt\") {\n\tcmdB\n}\n", "a.txt,b.txt", "", "A;B"},
 	{"glob+file", "task A(\"*.g\", \"a.txt\") {\n\tcmdA\n}\ntask B() {}\n", "a.txt", "x.g", "A;A,B"},
+	// a task with a glob that runs only as somebody else's dependency (a seeded change expanded the
+	// globs of the requested tasks only, DESIGN.md 9.5)
+	{"glob-in-dependency", "task A(\"*.g\", \"a.txt\") {\n\tcmdA\n}\ntask B(A) {\n\tcmdB\n}\n", "a.txt", "x.g", "A;B"},
 }
 
 var histShapesThorough = []histShape{
@@ -234,16 +237,16 @@ func init() {
 			"no panic in any goroutine, no deadlock, termination, an error and no digest whenever an entry cannot be opened or read, and no goroutine left behind after Hash returns.",
 		Bounds: func(tier string) string {
 			if tier == "thorough" {
-				return "lists of length 0..3 (duplicates allowed) over a pool of 7 entries x 1..3 CPUs x all schedules with at most 1 preemption (2 preemptions for lists of length <= 2 with <= 2 CPUs)"
+				return "lists over a pool of 7 entries (duplicates allowed): length 0..1 x 1..3 CPUs x schedules with at most 2 preemptions; length 2 x 1..3 CPUs x all blocking-point choices, x 1..2 CPUs x at most 1 preemption; length 3 x one worker x all blocking-point choices (first written as 0..3 x 1..3 x 1-2 preemptions, which did not finish: (2,2,2) was killed after 20 minutes)"
 			}
 			return "lists of length 0..2 (duplicates allowed) over a pool of 7 entries x 1..2 CPUs x all schedules with at most 1 preemption (length 2: no preemption, all blocking-point choices)"
 		},
-		Outside:      []string{"lists longer than 3, more than 3 workers, schedules with more preemptions", "data races (see assumptions); dangling symbolic links; real parallelism"},
+		Outside:      []string{"lists longer than 3, lists of length 3 with more than one worker, more than 3 workers, schedules with more preemptions", "data races (see assumptions); dangling symbolic links; real parallelism"},
 		Assumptions:  hashAssumptions,
 		EndSignature: map[string]string{"crash": "C18/crash", "budget": "C18/non-termination", "deadlock": "C18/deadlock"},
 		Jobs: func(tier string, seed int64) []jobSpec {
 			if tier == "thorough" {
-				return []jobSpec{hashJob("HashClean", 0, 3, 2), hashJob("HashClean", 1, 3, 2), hashJob("HashClean", 2, 2, 2), hashJob("HashClean", 2, 3, 1), hashJob("HashClean", 3, 3, 0), hashJob("HashClean", 3, 2, 1)}
+				return []jobSpec{hashJob("HashClean", 0, 3, 2), hashJob("HashClean", 1, 3, 2), hashJob("HashClean", 2, 3, 0), hashJob("HashClean", 2, 1, 1), hashJob("HashClean", 3, 1, 0), hashJob("HashClean", 2, 2, 1)}
 			}
 			return []jobSpec{hashJob("HashClean", 0, 2, 1), hashJob("HashClean", 1, 2, 1), hashJob("HashClean", 2, 2, 0)}
 		},
@@ -275,12 +278,12 @@ func init() {
 	register(&checkDef{
 		ID: "C05", Pkg: "runh", Level: "other", NativeCheck: true, UseStubs: true, OnlyPrefix: "C05/",
 		Explanation: "Bounded exhaustive symbolic execution of the real file.New + SpokFile.Run (expandGlobs, expandGlob with its callback) and of the third-party doublestar.GlobWalk from its real SSA over os.DirFS of the in-memory file system: the tree is every subset of a pool of candidate paths (top-level and nested files, entries whose first byte is '.' or a letter by a symbolic choice, names sorting before and after each other), the pattern is one of a fixed list. " +
-			"The expansion, as a set, must equal {p in tree (files and directories) : doublestar.Match(pattern, p) and p does not begin with '.'}, and a second expansion of the unchanged tree must give the same list. All variables are booleans/choices: complete enumeration inside the bound.",
+			"The expansion, as a set, must equal {p in tree (files and directories) : doublestar.Match(pattern, p) and p does not begin with '.'}, and a second expansion of the unchanged tree must give the same list; with two tasks carrying two patterns each pattern's expansion must still be exactly that set. All variables are booleans/choices: complete enumeration inside the bound.",
 		Bounds: func(tier string) string {
 			if tier == "thorough" {
-				return fmt.Sprintf("all subsets of a pool of %d candidate paths (3 of them hidden-or-not) x %d patterns", 9, nPatterns)
+				return fmt.Sprintf("all subsets of a pool of %d candidate paths (3 of them hidden-or-not) x %d patterns; two tasks with two patterns: all %d ordered pairs of distinct patterns x all subsets of the first 7 candidate paths", 9, nPatterns, nPatterns*(nPatterns-1))
 			}
-			return "all subsets of the first 7 candidate paths (2 of them hidden-or-not) x 8 patterns"
+			return "all subsets of the first 7 candidate paths (2 of them hidden-or-not) x 8 patterns; two tasks with two patterns: 5 overlapping pairs x all subsets of the first 5 candidate paths"
 		},
 		Outside:      []string{"other trees and patterns; symbolic links; patterns without '*' are not globs for spok", "doublestar.Match is the reference for 'the relative path matches the pattern' (the library's contract, not spok's)"},
 		Assumptions:  runAssumptions,
@@ -297,6 +300,21 @@ func init() {
 			var out []jobSpec
 			for _, k := range pats {
 				out = append(out, jobSpec{Name: fmt.Sprintf("Glob[pattern=%d pool=%d]", k, pool), Func: "Glob", Params: map[string]string{"pattern": strconv.Itoa(k), "pool": strconv.Itoa(pool)}, Opts: interp.Options{Budget: 10_000_000}})
+			}
+			// two tasks with two patterns: what a pattern denotes does not depend on its neighbours
+			pairs, ppool := [][2]int{{0, 1}, {1, 0}, {2, 5}, {10, 4}, {8, 11}}, 5
+			if tier == "thorough" {
+				pairs, ppool = nil, 7
+				for a := 0; a < nPatterns; a++ {
+					for b := 0; b < nPatterns; b++ {
+						if a != b {
+							pairs = append(pairs, [2]int{a, b})
+						}
+					}
+				}
+			}
+			for _, pr := range pairs {
+				out = append(out, jobSpec{Name: fmt.Sprintf("Glob[patterns=%d+%d pool=%d]", pr[0], pr[1], ppool), Func: "Glob", Params: map[string]string{"pattern": strconv.Itoa(pr[0]), "pattern2": strconv.Itoa(pr[1]), "pool": strconv.Itoa(ppool)}, Opts: interp.Options{Budget: 10_000_000}})
 			}
 			return out
 		},
